@@ -13,7 +13,8 @@ import Bng.Model.SubMgr
     tresume A                 => done:ok <snap> | badop
     abegin P s1               => parked|done:notfound <snap> | badop      (AssignAddress held inside the allocator call)
     aresume P                 => done:ok|done:exhausted|done:gone <snap> | badop
-    snap: rel=<a:n,…|-> held=<a:s1,…|-> sess=<s1,…|-> byip=<a:s1,…|-> ended=<s1:n,…|-> allocs=<a:n,…|->
+    fault rel4|rel6 on|off    => ok <snap>      the allocator's ReleaseIPv4 / ReleaseIPv6 fails (and keeps the address)
+    snap: rel=<a:n,…|-> held=<a:s1,…|-> sess=<s1,…|-> byip=<a:s1,…|-> ended=<s1:n,…|-> allocs=<a:n,…|-> relf=<a:n,…|->
 -/
 namespace Bng.Drv.SubMgrDrv
 open Bng Bng.Drv Bng.SubMgr
@@ -35,7 +36,8 @@ def showSnap (s : M) : String :=
     | none => none)
   let ended := (sortNat ((s.ended.filter (·.2 > 0)).map (·.1))).map fun n => s!"s{n}:{count s.ended n}"
   let allocs := (sortNat ((s.allocs.filter (·.2 > 0)).map (·.1))).map fun a => s!"{a}:{count s.allocs a}"
-  s!"rel={j rel} held={j held} sess={j sess} byip={j byip} ended={j ended} allocs={j allocs}"
+  let relf := (sortNat ((s.relf.filter (·.2 > 0)).map (·.1))).map fun a => s!"{a}:{count s.relf a}"
+  s!"rel={j rel} held={j held} sess={j sess} byip={j byip} ended={j ended} allocs={j allocs} relf={j relf}"
 
 def tagOf (t : String) : Option Nat :=
   match t with | "A" => some 0 | "B" => some 1 | "C" => some 2 | "P" => some 3 | "Q" => some 4 | _ => none
@@ -139,13 +141,21 @@ def monitor (mn : Mon) (op : Op) (impl : String) : Mon × List V :=
         [{ name := "residue", detail := s!"a new session for m{m} is refused although no live session has that MAC (an ended session still occupies the MAC index)" : V }]
       else []
     | _ => []
-  ({ allocs := allocs, prevHeld := held, macs := macs }, v1 ++ v2 ++ v3 ++ v4 ++ v5)
+  -- an address the allocator still counts as handed to a session that is not (any more) in the session table: nobody
+  -- holds it and nobody will ever release it (the session that knew it is gone)
+  let v6 := held.filterMap fun (a, n) =>
+    if !(sess.contains n) then
+      some { name := "stranded", detail := s!"address {a} is still allocated to s{n}, which is not a live session", sess := some n, addr := some a : V }
+    else none
+  ({ allocs := allocs, prevHeld := held, macs := macs }, v1 ++ v2 ++ v3 ++ v4 ++ v5 ++ v6)
 
 structure St where
   model : Option M := none
   mon : Mon := {}
   /-- sessions that were given a second address while live (KF-submgr-reassign-leak), with the address stranded -/
   reassigned : List (Nat × Nat) := []     -- (session, address stranded by a re-assignment)
+  /-- (session, address) for which a release call of the manager FAILED (KF-submgr-release-failed) -/
+  failedRel : List (Nat × Nat) := []
   v6 : Bool := false
 
 def step (st : St) (toks : List String) (impl : String) : St × LineResult :=
@@ -154,6 +164,16 @@ def step (st : St) (toks : List String) (impl : String) : St × LineResult :=
   -- the IPv6 halves of AssignAddress / TerminateSession: the same model (one address per session); the one difference
   -- is that a failed IPv6 allocation is not fatal to AssignAddress
   | ["new", "v6"] => ({ model := some SubMgr.init, mon := {}, v6 := true }, { modelObs := "ok" })
+  | ["fault", fam, on] =>
+    (match st.model, (if on == "on" then some true else if on == "off" then some false else none) with
+      | some m, some b =>
+        if fam == "rel4" || fam == "rel6" then
+          -- the run makes only the calls of ITS family: the other family's switch changes nothing
+          let mine := (fam == "rel6") == st.v6
+          let m' := if mine then (SubMgr.step m (.fault b)).1 else m
+          ({ st with model := some m' }, { modelObs := s!"ok {showSnap m'}" })
+        else (st, { modelObs := "badop" })
+      | _, _ => (st, { modelObs := "badop" }))
   | _ =>
     match st.model, parseOp toks with
     | some m, some op =>
@@ -188,10 +208,30 @@ where
     let still := fun (p : Nat × Nat) => heldNow.contains (p.2, p.1)
     let st1 := if !(impl.contains "held=") then st1 else   -- (an answer without a snapshot says nothing)
       { st1 with reassigned := st1.reassigned.filter still }
+    -- exclusion clause of the recorded finding KF-submgr-release-failed: a release call the manager made to the allocator
+    -- for (session, address) FAILED (model: `relCalled` while `relFails`): the pair is recorded at that moment — for a
+    -- termination the session's address, for the hand-back of AssignAddress the address the allocator had just handed
+    -- out — and only a residue / stranded verdict about exactly that pair is attributed; dropped like the above.
+    let failedNow : List (Nat × Nat) :=
+      if !(SubMgr.relCalled m op && m.relFails) then [] else
+      match op with
+      | .term n => (match AMap.lookup m.sessions n with
+          | some x => (match x.ip with | some a => [(n, a)] | none => [])
+          | none => [])
+      | .tresume tag => (match AMap.lookup m.calls tag with | some (n, a) => [(n, a)] | none => [])
+      | .assign n => (match SubMgr.firstFree m.owner with | some a => [(n, a)] | none => [])
+      | .aresume tag => (match AMap.lookup m.acalls tag, SubMgr.firstFree m.owner with
+          | some n, some a => [(n, a)]
+          | _, _ => [])
+      | _ => []
+    let st1 := { st1 with failedRel := failedNow ++ st1.failedRel }
+    let st1 := if !(impl.contains "held=") then st1 else { st1 with failedRel := st1.failedRel.filter still }
     let clause := fun (v : V) =>
-      if v.name != "residue" then "none" else
+      if v.name != "residue" && v.name != "stranded" then "none" else
       match v.sess, v.addr with
-      | some n, some a => if st1.reassigned.contains (n, a) then "KF-submgr-reassign-leak" else "none"
+      | some n, some a =>
+        if st1.reassigned.contains (n, a) then "KF-submgr-reassign-leak"
+        else if st1.failedRel.contains (n, a) then "KF-submgr-release-failed" else "none"
       | _, _ => "none"
     ({ st1 with model := some m', mon := mon' },
      { modelObs := showRes op (if st.v6 && r == .exhausted then .ok else r) m', viols := vs.map fun v => (v.name, clause v, v.detail) })
